@@ -12,6 +12,7 @@ from . import simdata as SD
 from .run import Check, Section
 
 _dir = None
+_tok = {}  # case -> [(bits, written token)…] row by row, left behind by the implementation run for the model request
 
 
 def setup():
@@ -21,6 +22,7 @@ def setup():
 
 
 def teardown(_):
+    _tok.clear()
     C.rm_tree(_dir)
 
 
@@ -98,17 +100,22 @@ def impl_rt(case):
     p.data = np.array([[from_bits(b) for b in r] for r in case["bits"]], dtype=np.float64)
     p.write()
     text = (gzip.open(f, "rt") if case["gz"] else open(f)).read()
+    # the tokens the real writer produced, cell by cell, beside the bits they stand for (decided in Lean: FloatText.checkTok)
+    _tok[C.jdump(case)] = [[[str(b), t] for b, t in zip(brow, line.split("\t")[1:])] + [["0", t] for t in line.split("\t")[1 + len(brow) :]] for brow, line in zip(case["bits"], text.splitlines()[1:])]
     want = None
     if case["subset"]:
         rnd = random.Random(case["seed"])
         want = set(rnd.sample(case["samples"], rnd.randint(1, len(case["samples"]))))
     r = K(f, log=SD.silent_log())
     r.read(samples=want)
-    return {"samples": list(r.samples), "names": list(r.names), "bits": [[bits(x) for x in row] for row in np.asarray(r.data)], "header": text.splitlines()[0].split("\t"), "want": sorted(want) if want else None}
+    return {"samples": list(r.samples), "names": list(r.names), "bits": [[bits(x) for x in row] for row in np.asarray(r.data)], "header": text.splitlines()[0].split("\t"), "want": sorted(want) if want else None,
+            # what the statement demands of the file itself: every cell is a token that any correctly rounding reader turns into the bits it was written from
+            "tokens": [["reads" if math.isfinite(from_bits(b)) else "special" for b in row] for row in case["bits"]]}
 
 
 def model_req_rt(case):
-    return {"op": "uniqNames", "names": case["names"]}
+    rows = _tok.get(C.jdump(case), [])  # not popped: a generator may yield the same case twice
+    return {"op": "batch", "reqs": [{"op": "uniqNames", "names": case["names"]}, {"op": "floatTok", "pairs": [p for r in rows for p in r]}]}
 
 
 def model_obs_rt(case, resp):
@@ -119,7 +126,16 @@ def model_obs_rt(case, resp):
         rnd = random.Random(case["seed"])
         want = set(rnd.sample(case["samples"], rnd.randint(1, len(case["samples"]))))
     keep = [i for i, s in enumerate(case["samples"]) if want is None or s in want]
-    return {"samples": [case["samples"][i] for i in keep], "names": resp["names"], "bits": [case["bits"][i] for i in keep], "header": ["#IID"] + resp["names"], "want": sorted(want) if want else None}
+    names = resp["resps"][0]["names"]
+    flat = list(resp["resps"][1]["verdicts"])
+    # the verdicts come back flat, in file order; the rows are as long as the rows of the case when the file has its shape
+    toks, k = [], 0
+    for row in case["bits"]:
+        toks.append(flat[k : k + len(row)])
+        k += len(row)
+    if k != len(flat):
+        toks.append(flat[k:])
+    return {"samples": [case["samples"][i] for i in keep], "names": names, "bits": [case["bits"][i] for i in keep], "header": ["#IID"] + names, "want": sorted(want) if want else None, "tokens": toks}
 
 
 def collision(names):
@@ -162,6 +178,9 @@ def oracle_rt(case, obs):
 def gen_parse(rng, tier):
     n = 200 if tier == "quick" else 6000
     toks = ["1.5", "-9", "0", "1e-300", "NA", "na", "abc", "", "nan", " 2.0", "3.", ".5", "1e5", "-inf", "1,5", "0x10", "+4", "7e", "--1"]
+    # tokens whose correctly rounded reading is delicate: ties between two doubles (read as the even one), values a hair off a tie,
+    # the edges of the subnormal range, 17 and more significant digits, exponent forms (each judged by FloatText.checkTok in Lean)
+    hard = ["1e23", "9007199254740993", "9007199254740995", "2.4703282292062327e-324", "2.4703282292062328e-324", "4.9e-324", "1.7976931348623157e308", "0.1000000000000000055511151231257827", "0.30000000000000004", "123456789012345678", "5e-324", "2.2250738585072011e-308", "1E5", "-0.0", "1.e3", "0.000001e6"]
     for t in range(n):
         m = rng.randint(1, 3)
         lines = []
@@ -170,7 +189,7 @@ def gen_parse(rng, tier):
         lines.append(["#IID"] + [f"p{j}" for j in range(m)])
         for i in range(rng.randint(1, 5)):
             good = rng.random() < 0.6
-            row = [f"s{i}"] + [rng.choice(toks[:3] + toks[9:13]) if good else rng.choice(toks) for _ in range(m)]
+            row = [f"s{i}"] + [rng.choice(toks[:3] + toks[9:13] + (hard if t % 3 == 0 else [])) if good else rng.choice(toks) for _ in range(m)]
             if t % 4 == 1 and rng.random() < 0.4:
                 # a cell beyond the last column of the header that is no number (a remark, NA, the empty cell a trailing tab leaves):
                 # a row with a non-numeric entry like any other
@@ -195,12 +214,39 @@ def impl_parse(case):
             # a file without a single parsable row: the statement does not say whether that is an empty table or a refusal
             # (judged in the oracle: a ValueError is only acceptable when no row of the file is parsable)
             rows, names, raised = [], list(p.names) if p.names is not None else None, True
+    # the values the real reader returned, beside the tokens of the line they were read from (sample IDs are unique per file):
+    # whether each is THE correctly rounded reading of its token is decided in Lean (FloatText.checkTok), not by calling float() again
+    by_sample = {l[0]: l for l in case["lines"] if l and not l[0].startswith("#")}
+    _tok["parse:" + C.jdump(case)] = {s: [[str(b), t] for b, t in zip(bs, by_sample.get(s, [s])[1:])] for s, bs in rows}
     return {"names": names, "rows": rows, "raised": raised, "errors": sum(1 for l, _ in cap.records if l == "ERROR")}
 
 
+def model_req_parse(case):
+    left = _tok.get("parse:" + C.jdump(case), {})
+    return {"op": "batch", "reqs": [{"op": "phenoParse", "lines": case["lines"]}, {"op": "floatTok", "pairs": [p for s in left for p in left[s]]}]}
+
+
 def model_obs_parse(case, resp):
-    t = resp["table"]
-    return {"names": t["names"], "rows": [[s, [bits(float(x)) for x in toks]] for s, toks in t["rows"]]}
+    t = resp["resps"][0]["table"]
+    left = _tok.get("parse:" + C.jdump(case), {})
+    flat, k, ok = list(resp["resps"][1]["verdicts"]), 0, {}
+    for s in left:
+        # a value is accepted for its token when Lean finds the token inside the value's rounding interval (and then inside no other)
+        ok[s] = [int(b) if v in ("reads", "special") else None for (b, tok), v in zip(left[s], flat[k : k + len(left[s])])]
+        k += len(left[s])
+    nan = bits(float("nan"))
+    rows = []
+    for s, toks in t["rows"]:
+        got = ok.get(s, [])
+        vals = []
+        for j, x in enumerate(toks):
+            b = got[j] if j < len(got) else None
+            if b is None:
+                vals.append(f"no correctly rounded reading of {x!r} was returned")
+            else:
+                vals.append(nan if math.isnan(from_bits(b)) else b)  # nan has many bit patterns: compared as the canonical one
+        rows.append([s, vals])
+    return {"names": t["names"], "rows": rows}
 
 
 def equal_parse(a, b):
@@ -241,7 +287,7 @@ def oracle_parse(case, obs):
 
 # ------------------------------------------------------------------ table operations
 def gen_ops(rng, tier):
-    for _ in range(200 if tier == "quick" else 6000):
+    for t in range(200 if tier == "quick" else 6000):
         ns, m = rng.choice([1, 2, 3, 4, 5, 6, 6, 7]), rng.randint(1, 3)
         if rng.random() < 0.05:
             ns, m = rng.randint(17, 40), rng.randint(1, 12)  # medium sizes
@@ -269,6 +315,16 @@ def gen_ops(rng, tier):
             unit = rng.choice([1e-300, 1e-200, 1e-160, 5e-324, 1e160, 1e200, 1e300])
             for r in data:
                 r[j] = unit * rng.randint(-3, 9)
+        if t % 10 == 4 and ns >= 2:
+            # a fixed share: a column of neighbouring doubles (its spread is a few units in the last place of its offset), where
+            # the rounding error of the computed mean is as large as the deviations themselves (defect F33)
+            j = rng.randrange(m)
+            off = rng.choice([-9.0, 1.0, 170.0, 1e8, -0.1, 3e-300])
+            for r in data:
+                r[j] = off
+            for i in rng.sample(range(ns), rng.randint(1, ns - 1)):
+                for _ in range(rng.randint(1, 3)):
+                    data[i][j] = math.nextafter(data[i][j], rng.choice([math.inf, -math.inf]))
         names = [f"p{j}" for j in range(m)]
         cs = rng.choice([None, rng.sample(names, rng.randint(1, m))])
         rs_special = None
@@ -426,13 +482,13 @@ def oracle_ops(case, obs):
 CHECK = Check(
     id="C15",
     title="Phenotype/covariate files round-trip bit-exactly; table operations are exact",
-    theorems=["C15.parse_render", "C15.bad_rows_skipped_not_shifted", "C15.parsed_row_is_its_line", "C15.leading_comments_ignored", "C15.names_made_unique", "C15.repeated_name_made_unique", "C15.uniqNamesOld_collision_witness", "C09R.standardize_mean_zero", "C09R.standardize_var_one"],
+    theorems=["C15.parse_render", "C15.bad_rows_skipped_not_shifted", "C15.parsed_row_is_its_line", "C15.leading_comments_ignored", "C15.names_made_unique", "C15.repeated_name_made_unique", "C15.uniqNamesOld_collision_witness", "C15.decimal_reads_as_at_most_one_double", "C15.float_codec_contract", "C15.exact_value_reads_back", "C15.checked_token_reads_back_everywhere", "C15.bits_decode_canonical", "C09R.standardize_mean_zero", "C09R.standardize_var_one"],
     imports=("HapModel", "HapReal"),
     build_targets=("HapModel", "HapReal"),
     sections=[
         Section(
             name="write_read_bitwise",
-            theorems=["C15.parse_render", "C15.names_made_unique", "C15.repeated_name_made_unique", "C15.uniqNamesOld_collision_witness"],
+            theorems=["C15.parse_render", "C15.names_made_unique", "C15.repeated_name_made_unique", "C15.uniqNamesOld_collision_witness", "C15.decimal_reads_as_at_most_one_double", "C15.float_codec_contract", "C15.exact_value_reads_back", "C15.checked_token_reads_back_everywhere", "C15.bits_decode_canonical"],
             gen=gen_rt,
             impl=impl_rt,
             model_req=model_req_rt,
@@ -442,14 +498,14 @@ CHECK = Check(
             teardown=teardown,
             nontrivial=lambda c, o: C.jdump([c["bits"], c["names"]]),
             describe=lambda c, o: ["Covariates" if c["cov"] else "Phenotypes", "gzip" if c["gz"] else "plain", "dup-names" if len(set(c["names"])) < len(c["names"]) else "uniq-names", "sample-subset" if c["subset"] else "all"],
-            rule="seeded float64 tables (1-5 samples x 1-4 columns) whose cells are drawn from bit patterns: uniform over the finite 2^64 patterns, a list of special values (subnormals, +-0, max, 1e+-300, 17-digit values, halfway cases), neighbours of powers of two and ten, integers, scaled gaussians; name multisets incl. duplicates and already-suffixed forms; plain / gzip, Phenotypes / Covariates, read of all samples or a subset; values compared BITWISE after write+read, names with the Lean uniqNames",
+            rule="seeded float64 tables (1-5 samples x 1-4 columns) whose cells are drawn from bit patterns: uniform over the finite 2^64 patterns, a list of special values (subnormals, +-0, max, 1e+-300, 17-digit values, halfway cases), neighbours of powers of two and ten, integers, scaled gaussians; name multisets incl. duplicates and already-suffixed forms; plain / gzip, Phenotypes / Covariates, read of all samples or a subset; values compared BITWISE after write+read, names with the Lean uniqNames; every token of the written file is judged in Lean against the bits it was written from (FloatText.checkTok: exact integer test that the decimal lies in the rounding interval of the double, which by C15.decimal_reads_as_at_most_one_double no other double shares)",
         ),
         Section(
             name="read_handwritten",
-            theorems=["C15.bad_rows_skipped_not_shifted", "C15.parsed_row_is_its_line", "C15.leading_comments_ignored"],
+            theorems=["C15.bad_rows_skipped_not_shifted", "C15.parsed_row_is_its_line", "C15.leading_comments_ignored", "C15.decimal_reads_as_at_most_one_double", "C15.checked_token_reads_back_everywhere"],
             gen=gen_parse,
             impl=impl_parse,
-            model_req=lambda c: {"op": "phenoParse", "lines": c["lines"]},
+            model_req=model_req_parse,
             model_obs=model_obs_parse,
             equal=equal_parse,
             oracle=oracle_parse,
@@ -457,7 +513,7 @@ CHECK = Check(
             teardown=teardown,
             nontrivial=lambda c, o: C.jdump(c),
             describe=lambda c, o: "some-rows-skipped" if isinstance(o, dict) and o.get("errors") else "all-rows-numeric",
-            rule="hand-written files with leading comment lines and rows mixing numeric tokens (incl. ' 2.0', '3.', '.5', '+4', 'nan', '-inf') with NA / na / text / empty / malformed cells: the rows read must be exactly the parsable rows, each with its own sample ID and cells, and an error must be logged when something is skipped",
+            rule="hand-written files with leading comment lines and rows mixing numeric tokens (incl. ' 2.0', '3.', '.5', '+4', 'nan', '-inf') with NA / na / text / empty / malformed cells: the rows read must be exactly the parsable rows, each with its own sample ID and cells, and an error must be logged when something is skipped; a third of the files hold delicate tokens (ties between two doubles, values a hair off a tie, subnormal edges, 17+ digits) and every value the reader returned is judged in Lean against its token (FloatText.checkTok) instead of by calling float() a second time",
         ),
         Section(
             name="table_operations",
@@ -469,8 +525,8 @@ CHECK = Check(
             rule="standardize (mean 0 / variance 1 within 1e-9, all zeros iff constant, incl. columns of scale 1e-9 and 1e-12 and columns whose offset is 1e6..1e12 times their spread), append, subset (requested order, unknown samples dropped), check_missing (raise / discard exactly the rows holding -9)",
         ),
     ],
-    trusted=["numpy array2string(floatmode='unique') prints, and float64(token) parses, every finite double so that the value is recovered (checked bitwise on the sampled values, not proved)", "csv module tab splitting"],
+    trusted=["numpy array2string(floatmode='unique') prints every finite double as a decimal inside its rounding interval, and float64(token) rounds correctly (each written / read token of the run is decided exactly in Lean; that it holds for all doubles is not proved – no formalisation of Dragon4 / strtod)", "csv module tab splitting"],
     assumptions=["sample IDs and name tokens contain no tab or newline; values are finite"],
-    partial="Dragon4 shortest printing and strtod correct rounding for all doubles are validated bitwise on samples, not proved",
+    partial="proved: a decimal is the correctly rounded reading of at most one double, hence any writer that stays inside the rounding interval is inverted by any correctly rounding reader (float_codec_contract); decided exactly per token of the run: that the real writer's tokens lie inside the interval. Not proved: that Dragon4 shortest printing does so for every double and that strtod rounds correctly for every token",
     anchors=[("haptools/data/phenotypes.py", ["Phenotypes.write", "Phenotypes.__iter__", "Phenotypes._iterate", "Phenotypes.read", "Phenotypes.standardize", "Phenotypes.append", "Phenotypes.subset", "Phenotypes.check_missing"])],
 )
